@@ -13,13 +13,13 @@ MONITORS = ('M2', 'M6')
 ANCHORS = ['phylib.io.model:TemplateModel.get_merge_map', 'phylib.io.model:TemplateModel.cluster_waveforms',
            'phylib.io.model:TemplateModel.get_cluster_mean_waveforms', 'phylib.io.model:TemplateModel._load_data',
            'phylib.io.model:TemplateModel.get_template_counts']
-RULE = ('Each case = a generated dense dataset (3-20 channels, 1-3 shanks, with/without whitening) whose '
+RULE = ('Each case = a generated dense dataset (3-20 channels, 1-3 shanks far apart or interleaved, with/without whitening, id dtypes int32/uint16/uint32/int64, cluster ids occasionally jumping by 300 or 14000) whose '
         'spike_clusters come from a random history of 0-6 merges / splits / reassignments (to new, existing '
         'and far-away ids) applied to clusters = templates, producing empty ids, one-spike clusters and count '
         'ties; loaded with the real load_model. Judged: merge_map for every id 0..max, nan_idx, n_clusters, '
         'sparse_clusters.data per cluster (single template: unchanged template; several: spike-count weighted '
         'mean of the channel-restricted templates on the dominant template\'s channels, any tied template '
-        'accepted as dominant; empty: zeros), get_cluster_mean_waveforms (unwhitened); uncurated datasets: '
+        'accepted as dominant provided the channel list of the cluster follows the same one; empty: zeros), get_cluster_mean_waveforms (unwhitened); uncurated datasets: '
         'cluster waveforms = template waveforms and n_clusters = n_templates, also when a template (first, '
         'middle or last) has no spikes. non-trivial = distinct datasets with >= 1 multi-template cluster and '
         '>= 1 empty id, or uncurated with a spikeless template.')
@@ -54,7 +54,9 @@ def run_case(case, ctx):
                 wm=bool(rng.random() < 0.7), nt=int(rng.integers(2, 7)), ns=int(rng.integers(8, 60)),
                 clusters='curated' if curated else ['same', 'absent'][int(rng.integers(0, 2))],
                 curation_ops=int(rng.integers(1, 7)),
-                spikeless=['none', 'first', 'middle', 'last'][int(rng.integers(0, 4))], ncdat_extra=0)
+                spikeless=['none', 'first', 'middle', 'last'][int(rng.integers(0, 4))], ncdat_extra=0,
+                dtype_ids=['int32', 'uint16', 'uint32', 'int64'][int(rng.integers(0, 4))],
+                far_ids=int(rng.choice([0, 0, 0, 0, 300, 14000])), interleave=bool(rng.random() < 0.3))
     spec = random_spec(rng, **opts)
     curated = spec.curated
     st, sc = spec.spike_templates.astype(np.int64), spec.clusters.astype(np.int64)
@@ -116,6 +118,19 @@ def run_case(case, ctx):
                             E[:, own[t]] = acc[:, own[t]]
                             exp.append(E)
                 scale = max(1.0, np.abs(exp[0]).max())
+                if len(exp) > 1:
+                    # count tie: any tied template may be the dominant one, but the model must make the same
+                    # choice for the cluster's waveform and for the cluster's channel list
+                    rc = call(m.get_cluster_channels, c)
+                    which = [t for t, n_ in zip(ts, cnt) if n_ == cnt.max()]
+                    for t, E in zip(which, exp):
+                        if np.allclose(D[c], E, atol=1e-6 * scale, rtol=1e-6) and rc.ok and \
+                                sorted(int(x) for x in np.asarray(rc.value).tolist()) != sorted(chans(spec, rt.unwhitened(spec, t, True))) and \
+                                any(sorted(int(x) for x in np.asarray(rc.value).tolist()) == sorted(chans(spec, rt.unwhitened(spec, t2, True)))
+                                    for t2 in which if t2 != t) and own[t] != own[[t2 for t2 in which if t2 != t][0]]:
+                            ctx.violation('dominant_inconsistent', desc,
+                                          'cluster %d (templates %r, tied counts): its waveform sits on the channels of template %d but '
+                                          'get_cluster_channels follows another tied template' % (c, ts, t), f)
                 if not any(np.allclose(D[c], E, atol=1e-6 * scale, rtol=1e-6) for E in exp):
                     ctx.violation('cluster_waveform', desc,
                                   'cluster %d (templates %r): waveform differs from the %s' % (
